@@ -81,6 +81,12 @@ def garbage(r, framing, d, cls):
             return bytes([r.choice([0x00, 0xFF])]) * n
         pool = [b for b in range(256) if b not in (0x3A, 0x7B)]
         return bytes(r.choice(pool) for _ in range(n))
+    if cls == 'unknown-function':
+        # legal traffic on a shared line that is not noise at all: well-formed, checksum-valid requests with function codes this
+        # implementation does not know (RTU sizes such frames as unit + code + one byte + CRC)
+        if d != REQ:
+            return bytes(r.randrange(256) for _ in range(r.randint(1, 40)))
+        return b''.join(ADU.build(framing, UNIT, bytes([fc, r.randrange(256)])) for fc in r.sample([0x41, 0x42, 0x55, 0x64, 0x09, 0x7E], 1 if framing != 'ascii' else r.randint(1, 3)))      # (one per read: several frames per read are the recorded one-frame-per-call / skipped-frame findings)
     if cls == 'delimiters':
         pool = {'rtu': [0, 1, 3, 0x10, 0xFF], 'ascii': [0x3A, 0x0D, 0x0A, 0x30, 0x46, 0x20], 'binary': [0x7B, 0x7D, 0x01, 0x00]}[framing]
         return bytes(r.choice(pool) for _ in range(r.randint(1, 12)))
@@ -111,7 +117,7 @@ def garbage(r, framing, d, cls):
     raise ValueError(cls)
 
 
-CLASSES = ['random', 'random-long', 'delimiters', 'flipped', 'truncated', 'foreign-unit', 'huge-bytecount', 'bad-checksum', 'line-noise']
+CLASSES = ['random', 'random-long', 'delimiters', 'flipped', 'truncated', 'foreign-unit', 'huge-bytecount', 'bad-checksum', 'line-noise', 'unknown-function']
 
 
 def ascii_stray_colon(g):
@@ -457,6 +463,8 @@ def run(run):
                 nfr = 24 if big else (BOUND[framing] // small_len + 30)
                 case = {'framing': framing, 'dir': d, 'garbage': g, 'class': cls, 'per_read': per_read, 'joined': bool(i % 4 == 1), 'big': big,
                         'nframes': nfr, 'fseed': r.randrange(1 << 30), 'warm': (i // 8) % 3}
+                if cls == 'unknown-function' and framing != 'ascii':
+                    case['joined'] = False        # (a frame joined to another frame in one read is the one-frame-per-call / skipped-frame matter)
                 res = check(run, case)
                 if res is None:
                     continue
